@@ -154,8 +154,11 @@ NoConn == [r |-> FALSE, w |-> FALSE, reg |-> FALSE, reading |-> FALSE, echo |-> 
 UpConn == [r |-> TRUE, w |-> TRUE, reg |-> TRUE, reading |-> TRUE, echo |-> FALSE, dying |-> FALSE]
 S0(cfg) == [cfg |-> cfg, ts |-> "inactive", rep |-> FALSE, tp |-> "none", stack |-> <<>>, tq |-> <<>>, eq |-> <<>>, cq |-> <<>>,
             cwait |-> FALSE, cw |-> FALSE, cr |-> FALSE,
-            tc |-> IF cfg.mode = "start" THEN UpConn ELSE NoConn, cc |-> [r |-> FALSE, w |-> FALSE],
-            hsn |-> 0, buf |-> 0, dl |-> 0, net |-> <<>>, presp |-> "", hleft |-> 0, np |-> 0, pfin |-> FALSE,
+            tc |-> IF cfg.mode = "start" THEN UpConn ELSE IF cfg.mode = "start_half" THEN [UpConn EXCEPT !.r = FALSE] ELSE NoConn,
+            cc |-> [r |-> FALSE, w |-> FALSE],
+            \* start_half: the peer's EOF was read while next_layer buffered events; its ConnectionClosed is still to come
+            hsn |-> 0, buf |-> 0, dl |-> 0, net |-> IF cfg.mode = "start_half" THEN <<"fin">> ELSE <<>>,
+            presp |-> "", hleft |-> 0, np |-> 0, pfin |-> cfg.mode = "start_half",
             csent |-> FALSE, nc |-> 0, nopen |-> 0, ncut |-> 0, clientopen |-> TRUE, started |-> FALSE,
             nested |-> FALSE, out |-> <<>>]
 CfgEv(cfg) == [k |-> "cfg", kind |-> cfg.kind, mode |-> cfg.mode, same |-> cfg.same, react |-> cfg.react,
